@@ -6,6 +6,7 @@ import Svgdx.Xml.Raw
 import Svgdx.Xml.Write
 import Svgdx.Doc.Root
 import Svgdx.Geom.Text
+import Svgdx.Doc.Transform
 namespace Driver
 open Svgdx Xml
 
@@ -60,6 +61,23 @@ def handleXml (op : Str) (args : List Str) : Option String :=
   else if op == cs!"text_string" then
     match args with
     | [s] => some (joinFields [Text.textString s])
+    | _ => none
+  else if op == cs!"doc_transform" then
+    -- doc_transform border scale loopLimit varLimit depthLimit tok… : the whole pipeline, auto-styles off
+    match args with
+    | border :: scale :: ll :: vl :: dl :: toks =>
+      let rcfg : Doc.RootCfg := ⟨Num.digitsToNat border, (Num.strp scale).getD 1, none, none⟩
+      let cfg : Ctl.Cfg := { loopLimit := Num.digitsToNat ll, varLimit := Num.digitsToNat vl, depthLimit := Num.digitsToNat dl }
+      let doc := Ctl.parseDoc (toks.filterMap decodeTok)
+      let st0 : Ctl.St Nat := { rng := 0, cfg := cfg }
+      let (st, r) := Ctl.processNodes Ctl.simpleEvalr (4000 + 40 * toks.length) st0 doc
+      some (match r with
+        | .error e => joinFields [cs!"err:" ++ e.name.toList, if st.outside then ['1'] else ['0']]
+        | .ok (evs, bb) =>
+          let out := if st.realSvg then some evs else Doc.postprocess rcfg evs bb
+          match out with
+          | none => joinFields [cs!"err:RootAttrs", ['0']]
+          | some evs => joinFields ([cs!"ok", if st.outside then ['1'] else ['0']] ++ evs.map encodeEv))
     | _ => none
   else if op == cs!"root_attrs" then
     -- root_attrs border scale style(-) localid(-) bbox(none | x1 y1 x2 y2 as 4 fields) n k v …
